@@ -5,6 +5,8 @@ From V.gen Require CapsTables.
 From V.Mgr Require Import DialShape Model Caps CapsExt Limits LimitsProofs PeerTable PeerTableProofs.
 From V.Mgr Require Ledger LedgerInv CapsLedger.
 From V.C06 Require Tables TcpReject Compose08.
+From V.C07 Require Model Compose.
+From V.Link Require C07_C06.
 Import ListNotations.
 Open Scope N_scope.
 
@@ -519,3 +521,52 @@ Theorem C06_transports_reject_shape :
   forall t k, t < 3 -> k < 4 -> In (t, k, 1) CapsTables.transport_shapes.
 Proof. exact Tables.transports_uniform. Qed.
 Print Assumptions C06_transports_reject_shape.
+
+(* ---- the order constraints of the composition, derived from the C07 node model (coq/Link/C07_C06.v) ----
+   Compose08.xok assumes, besides env_ok: (a) the protocol is told ConnectionEstablished(p, c) only for a
+   connection of the manager's live ledger and once per id, (b) ConnectionClosed(p, c) only for a
+   connection it holds, (c) the manager's own Closed / failed AcceptDone arrive after the protocol let go.
+   Formerly cited by name (C07_order, C07_accept_each_once, C07_node_no_rollback); now THEOREMS about a
+   node of connection tasks: every run of the C07 node model (manager + accept futures + connection tasks
+   + protocols, any interleaving), projected to what protocol i is told (`node_xevs`: XEst / XClosed read
+   off the notes NEst i / NClosed i of the accept future / the task, XM for every event the manager is
+   fed, in the order the code produces them), is an `xtrace`. Hypotheses left: env_ok for the events the
+   transports deliver (node_env_trace), connection ids never announced twice (fresh_ids: the shared
+   counter, C05_sys2_counters_in_step; env_ok asks only that the id is not live), protocol i itself stays
+   alive (no_die i; the other protocols may exit at any time). *)
+Theorem C06_C08_xtrace_on_node :
+  forall (i n : nat) (L : limits) (es : list V.C07.Model.nev),
+  (i < n)%nat ->
+  V.C07.Compose.node_env_trace L (V.C07.Model.node_init n) [] [] es ->
+  V.Link.C07_C06.fresh_ids [] es -> V.Link.C07_C06.no_die i es ->
+  Compose08.xtrace L Compose08.x0 (V.Link.C07_C06.node_xevs i L (V.C07.Model.node_init n) es).
+Proof. exact V.Link.C07_C06.node_provides_xtrace. Qed.
+Print Assumptions C06_C08_xtrace_on_node.
+
+(* ... so C08's hypothesis `feasible 2` holds for the TransportService of protocol i of a node: its
+   connection events are what the node tells protocol i, its other events satisfy the cap-independent
+   rest (connection task's side) *)
+Theorem C06_C08_feasible_on_node :
+  forall (i n : nat) (L : limits) (es : list V.C07.Model.nev) tr ka T0 n0,
+  (i < n)%nat ->
+  V.C07.Compose.node_env_trace L (V.C07.Model.node_init n) [] [] es ->
+  V.Link.C07_C06.fresh_ids [] es -> V.Link.C07_C06.no_die i es ->
+  filter Compose08.is_conn (map snd tr) =
+    Compose08.xproj (V.Link.C07_C06.node_xevs i L (V.C07.Model.node_init n) es) ->
+  Compose08.feasible_rest V.Ts.Model.env0 (V.Ts.Model.init ka T0 n0) tr = true ->
+  V.Ts.Model.feasible 2 V.Ts.Model.env0 (V.Ts.Model.init ka T0 n0) tr = true.
+Proof. exact V.Link.C07_C06.node_feasible. Qed.
+Print Assumptions C06_C08_feasible_on_node.
+
+(* non-vacuity: two protocols; peer 5 connects over TCP (id 0) and WebSocket (id 1), protocol 1 exits,
+   connection 0 ends: protocol 0 is told Established 0, Established 1, Closed 0 *)
+Theorem C06_C08_node_nonvacuous :
+  let L := mkLimits None None [TCP; WS] in
+  let es := [V.C07.Model.NMgr AllocConn; V.C07.Model.NMgr (TrEstablished 5 0 TCP true false); V.C07.Model.NAccept 0;
+             V.C07.Model.NMgr AllocConn; V.C07.Model.NMgr (TrEstablished 5 1 WS true false); V.C07.Model.NAccept 1;
+             V.C07.Model.NProtoDie 1; V.C07.Model.NTask 0 (V.C07.Model.EYamux V.C07.Model.YEof)] in
+  Compose08.xproj (V.Link.C07_C06.node_xevs 0 L (V.C07.Model.node_init 2) es) =
+    [V.Ts.Model.EEst 5 0; V.Ts.Model.EEst 5 1; V.Ts.Model.EClosed 5 0] /\
+  V.Link.C07_C06.fresh_ids [] es /\ V.Link.C07_C06.no_die 0 es.
+Proof. exact V.Link.C07_C06.node_xevs_nonvacuous. Qed.
+Print Assumptions C06_C08_node_nonvacuous.
